@@ -83,6 +83,10 @@ chk("C19", "model_checking",
     "For every history of a family (dense in 2 variants, small-stake; every single appended deviation; one restart at every boundary) EVERY query of the universe (7 paths x keys x heights 0..latest+1) is asked at EVERY gap between consensus calls and at the end: answers for a committed height never change (also mid-block, after later blocks, after a restart), agree with the complete state dump of that height, height 0 == latest, latest+1 is an error, and the queried replica's consensus responses equal the quiet replica's.",
     "Answers compared after JSON key-order canonicalisation (tendermint's JSON encoder emits map fields in random order - not a different answer); state dumps are validated against the reference model by the other checks; stakes/voting_power is outside the statement's list.",
     "exhaustive (path x key x height x moment) query enumeration over deviation-bounded histories, immutability + state agreement + twin oracle", "§5 C19")
+chk("C03", "model_checking",
+    "(a) For a valid signed transaction of every type (10 bases) every single and every pair of mutations of a ~150-operator menu over the DECODED fields (incl. the narrowed payload integers at +2^31/+2^32/+2^40/+2^62, claimed sender, type relabelling, option lists, every signature byte, chain id in both directions) is delivered with the signature kept: the mutant must fail, the genuine transaction must still succeed afterwards, and the full state must equal the twin that never saw the mutants. (b) Bounded injectivity: over the full product of per-field value menus chosen to collide under any 32/64-bit narrowing (~460k transactions) no two transactions differing in an executed field share a signing pre-image.",
+    "Injectivity is claimed over the enumerated menus; wire-level re-encodings decoding to equal values are not alterations; secp256k1/sha256 trusted.",
+    "bounded-exhaustive mutation enumeration with twin oracle + exhaustive bounded pre-image injectivity check", "§5 C03")
 
 ALL = ["C%02d" % i for i in range(1, 21)]
 PENDING_REASON = "check under construction in this round (model-checking harness not yet registered); see DESIGN.md §5"
